@@ -460,6 +460,44 @@ def sqrt_ (retain : Bool) (s : St) (root op : Nat) : Option St :=
 
 def mpz_sqrt (s : St) (root op : Nat) : Option St := sqrt_ true s root op
 
+/-! ### mpz_sqrtrem — mpz/sqrtrem.c (two destinations; root and rem different variables) -/
+
+/-- mpn_sqrtrem (sp, rp, np, nn), np[nn-1] != 0: the contract: reads np[0,nn) (rp may be np), writes the (nn+1)/2 limbs of
+    ⌊√N⌋ to sp and the remainder N - ⌊√N⌋² within rp[0, nn) ("rp needs space for nn limbs"); returns the remainder's size -/
+def mpn_sqrtrem_S (s : St) (sp rp : Ptr) (np : Src) (nn : Nat) : St × Nat :=
+  let N := val (s.rdS np nn)
+  let m := toLimbs nn (N - Nat.sqrt N * Nat.sqrt N)
+  (((s.chk (s.rdOkS np nn)).wr sp (toLimbs ((nn + 1) / 2) (Nat.sqrt N))).wr rp m, (Mpir.normalize m).length)
+
+/-- sqrtrem.c:84-91 -/
+def sqrtremTail (s : St) (root rem : Nat) (op : Src) (op_size root_size : Nat) : St :=
+  let r := mpn_sqrtrem_S s (s.PTR root) (s.PTR rem) op op_size                -- :84 (rem->_mp_d fetched here)
+  let s := r.1.setSize root root_size                                         -- :86
+  s.setSize rem r.2                                                           -- :91 "Write remainder size last"
+
+/-- mpz_sqrtrem (root, rem, op), sqrtrem.c:29-96; `none` = SQRT_OF_NEGATIVE; `rminus` = 0 in the C (`_mpz_realloc (rem, op_size)`) -/
+def sqrtrem (rminus : Nat) (s : St) (root rem op : Nat) : Option St :=
+  let op_size := s.SIZ op                                                     -- sqrtrem.c:38
+  if op_size ≤ 0 then                                                         -- :39
+    if op_size < 0 then none                                                  -- :41-42
+    else some ((s.setSize root 0).setSize rem 0)                              -- :43-45
+  else
+    let n := op_size.natAbs
+    let s := MPZ_REALLOC s rem (n - rminus)                                   -- :48-49
+    let root_size := (n + 1) / 2                                              -- :52
+    let op_ptr := s.PTR op                                                    -- :55 (after the reallocation of rem)
+    if s.ALLOC root < root_size then                                          -- :57
+      if root == op then                                                      -- :59 root_ptr == op_ptr
+        let old := (s.h root).buf                                             -- :61-62 free_me
+        some (sqrtremTail (freshBlock s root root_size) root rem (Src.tmp old 0) n root_size)
+      else some (sqrtremTail (freshBlock s root root_size) root rem (Src.ptr op_ptr) n root_size)   -- :65-69
+    else if root == op then                                                   -- :74
+      let c := tmp_copy s op_ptr n                                            -- :77-80
+      some (sqrtremTail c.2 root rem (Src.tmp c.1 0) n root_size)
+    else some (sqrtremTail s root rem (Src.ptr op_ptr) n root_size)
+
+def mpz_sqrtrem (s : St) (root rem op : Nat) : Option St := sqrtrem 0 s root rem op
+
 /-! ### mpf: a destination of `PREC + 1` limbs that is never reallocated — mpf/urandomb.c
 
     An `mpf_t` owns a block of `_mp_prec + 1` limbs (mpf/init2.c) for its whole life; every function must keep its stores inside
